@@ -1547,7 +1547,7 @@ def gen_plan_threads(seed: int, wide=False) -> dict:
     ncls = 0
     for _ in range(ro.choice([0, 1, 2])):
         spec = tg.gen_class_spec(ro, sym, f'C{ncls}', [k for k in kinds if k not in ('tl', 'dl')], C10_SCALARS,
-                                 custom_specs=[None, None, ['one', 'dbl_int']])
+                                 custom_specs=[None, None, ['one', 'dbl_int']], generic_p=0.4)
         sym.classes[spec['name']] = True
         sym.class_specs[spec['name']] = spec
         plan['setup'].append({'op': 'defclass', 'spec': spec})
@@ -1567,7 +1567,15 @@ def gen_plan_threads(seed: int, wide=False) -> dict:
         ops = []
         for _ in range(ro.choice([1, 2, 3, 4, 5])):
             r = ro.random()
-            if insts and r < 0.2:
+            gens = [n for (n, sp) in sym.class_specs.items() if sp.get('tv')]
+            if gens and r < 0.15:
+                g = ro.choice(gens)
+                prm = [ro.choice([['s', 'int'], ['s', 'str'], ['s', 'float'], ['list', ['s', 'int']], ['union', ['s', 'float'], ['s', 'int']]])
+                       for _ in sym.class_specs[g]['tv']]
+                ast = tg.normalise_unions(['gen', g] + prm)
+                ops.append({'op': 'inline', 't': ast, 'custom': ro.choice(hs),
+                            'data': tg.enc(tg.sample_value(ast, sym, ro, valid_p=knobs['valid_p']))})
+            elif insts and r < 0.2:
                 i_ = ro.choice(sorted(insts))
                 ops.append({'op': 'serialise', 'inst': i_, 'root': insts[i_], 'mode': ro.choice(['typed', 'infer', 'roundtrip']),
                             'custom': ro.choice(hs)})
